@@ -598,6 +598,8 @@ class InterpCore(object):
                 sv = self.eval(a.value, env)
                 if isinstance(sv, ListV):
                     args.extend(sv.items)
+                elif isinstance(sv, SortedV):
+                    args.extend(Opaque(("sorted_item", sv.key(), i)) for i in range(len(sv.items)))
                 elif isinstance(sv, (Opaque, SeqV)):
                     args.append(("star", sv))
                 else:
